@@ -22,7 +22,8 @@ pub fn present_case(tok: &RefToken, token: &str, claims_clear: &Value, redact: &
     let present: Vec<bool> = tok.discs.iter().map(|d| !withheld(&d.path)).collect();
     let mut e = expectation(tok, claims_clear, &[], "accept");
     e["present"] = json!(present);
-    let bound = tok.payload.get("cnf").is_some();
+    // bound = the payload names a holder key; "cnf": null names none (the verifier treats it as unbound)
+    let bound = tok.payload.get("cnf").map_or(false, |c| !c.is_null());
     e["build"] = json!(if bound && !kb.is_object() { "err" } else { "ok" });
     let kb_fits = kb.is_object()
         && verifier["kbpol"].is_object()
@@ -119,6 +120,11 @@ pub fn generate(thorough: bool, seed: u64, em: &mut Emitter) {
         let r = &mut rc;
         let (claims, marks) = gen::claims_and_marking(r, i, 3, 3);
         let bound = i % 5 == 0;
+        // a credential whose claims carry "cnf": null is not bound to any key: presenting it needs no key binding
+        let mut claims = claims;
+        if !bound && i % 50 == 9 {
+            claims.as_object_mut().unwrap().insert("cnf".to_string(), Value::Null);
+        }
         let (token, tok, clear) = match make_token(r, &claims, &marks, bound, i % 2 == 0) {
             Some(x) => x,
             None => continue,
